@@ -73,6 +73,7 @@ func (sdisp) Gen(r *rand.Rand, sessions int) []string {
 						}
 					}
 				}
+				id = nearMissID(r, id)
 				out = append(out, "reply "+c+" "+id+" "+pick(r, "result", "result", "error"))
 			case k < 70:
 				if waits < 3 && running {
@@ -205,9 +206,9 @@ func runSDisp(ops []string, emit func(string)) {
 		case "reply":
 			var fr string
 			if f[3] == "result" {
-				fr = fmt.Sprintf(`[3,"%s",{"status":"Accepted"}]`, f[2])
+				fr = fmt.Sprintf(`[3,"%s",{"status":"Accepted"}]`, wireID(f[2]))
 			} else {
-				fr = fmt.Sprintf(`[4,"%s","GenericError","some error",{}]`, f[2])
+				fr = fmt.Sprintf(`[4,"%s","GenericError","some error",{}]`, wireID(f[2]))
 			}
 			done := make(chan struct{})
 			go func() { _ = fs.deliver(f[1], []byte(fr)); close(done) }()
